@@ -17,7 +17,7 @@ func init() {
 		Rule: "case = seeded history (1-60 ops) on a sketch with exact summary statistics over {Add, AddWithCount (incl. weight 0), MergeWith, DecodeAndMergeWith, Copy-continue, Clear, Reweight, ChangeMapping, Encode->Decode into any store kind} with values from the hostile value generator (plus adversarial sum sequences: 2^53 then many 1.0, alternating +-large, tiny after huge) and dyadic weights; " +
 			"after every event: GetCount exact, IsEmpty iff nothing with positive weight, GetMin/MaxValue bitwise the true extremes, GetSum within (16+8L)*2^-53*sum|v*w| of the exact sum (L = lossy events), every quantile == clamp(plain answer, min, max) and inside [min,max], bins equal to the model when defined. " +
 			"Non-trivial = history with >=1 merge-or-decode and >=1 of {Reweight, Clear, Copy, ChangeMapping}; distinct = hash of the history.",
-		Cases:     core.Scale(10000, 300000),
+		Cases:     core.Scale(30000, 800000),
 		Mandatory: []string{"oracle.stat_checks", "oracle.sum_checks", "oracle.quantile_clamp_checks", "event.MergeWith", "event.DecodeAndMergeWith", "event.Reweight", "event.ChangeMapping", "event.Encode->Decode", "event.Copy->continue", "event.Clear", "adversarial_sum_cases", "zero_weight_adds"},
 		Assumptions: []string{
 			"dyadic weights under the exactness budget make the count exact; sum bound calibrated (DESIGN §3.6)",
@@ -30,7 +30,7 @@ func init() {
 		Level: "exploration",
 		Rule: "case = seeded history (adds, weighted adds, merges, decodes, copies, clears, round trips) on either sketch variant over all 5 store kinds and all mapping kinds, with data shapes all-negative, all-zero, zero+negative, single value, sub-minimum only, mixed; after every event: count == zero + both sides (exact), IsEmpty iff count==0, min/max in the bin of the true (clamped for collapsing stores) extreme or 0, " +
 			"quantiles non-decreasing over a sorted q grid and within [min,max], batch == singles, same-signed data: |GetSum - true sum| <= (alpha+64u)|true sum|, ForEach yields each non-empty bin once with weight>0 summing exactly to count and stops after exactly min(k,#bins) calls. Non-trivial = special data shape or history with merge/decode; distinct = hash of the history.",
-		Cases:     core.Scale(10000, 300000),
+		Cases:     core.Scale(60000, 1500000),
 		Mandatory: []string{"oracle.coherence_checks", "oracle.foreach_stop_checks", "oracle.sum_checks", "oracle.monotone_checks", "shape.neg", "shape.zeros", "shape.zeros+neg", "shape.single", "shape.submin", "oracle.extreme_checks.collapsed"},
 		Run:       runC12,
 	})
@@ -39,7 +39,7 @@ func init() {
 		Level: "exploration",
 		Rule: "case = sketch reached by a seeded history (both variants, all 5 store kinds, both signs), then Reweight(w) for dyadic-budgeted w in {a*2^k}: <1, =1, >1; oracle: every bin, the zero bucket and the count equal the model scaled by w exactly, exact sum within the bound, exact min/max bitwise unchanged, and the whole observation equals that of a second real sketch built by adding the same items with weights*w; " +
 			"the hook shows paginated stores holding both buffered and paged indexes at the time of the call. Non-trivial = both sides non-empty and w != 1; distinct = hash of the history and w.",
-		Cases:     core.Scale(10000, 300000),
+		Cases:     core.Scale(80000, 2000000),
 		Mandatory: []string{"oracle.reweight_checks", "oracle.rebuilt_twin_checks", "reweight.lt1", "reweight.gt1", "reweight.eq1", "layout.reweight_with_buffer_and_pages", "reweight.both_sides"},
 		Run:       runC16,
 	})
